@@ -367,6 +367,30 @@ class VC:
         self.fn = fn
 
 
+class AliasPath:
+    """name is a reference to root.step.step... (indices evaluated when the alias was made)."""
+
+    def __init__(self, root, steps):
+        self.root = root
+        self.steps = list(steps)     # ('attr', name) | ('item', Val)
+
+
+def is_mutable_val(v):
+    if isinstance(v, (PList, PRec, PObj)):
+        return True
+    if isinstance(v, ZV):
+        return _shape_mutable(v.shape)
+    return False
+
+
+def _shape_mutable(sh):
+    if isinstance(sh, (TList, TDict, TBag, TRec)):
+        return True
+    if isinstance(sh, TOpt):
+        return _shape_mutable(sh.elem)
+    return False
+
+
 class NeedChoice(Exception):
     def __init__(self, n):
         self.n = n
@@ -378,9 +402,12 @@ class State:
         self.pc = pc if pc is not None else []
         self.choices = []
         self.choice_pos = 0
+        self.alias = {}       # name -> AliasPath: the name is a view into a mutable container
 
     def fork(self):
-        return State(dict(self.env), list(self.pc))
+        s = State(dict(self.env), list(self.pc))
+        s.alias = dict(self.alias)
+        return s
 
     def choose(self, n):
         """Non-deterministic choice inside an expression (contract cases): the enclosing
@@ -691,14 +718,72 @@ class Engine:
     def st_Assign(self, s, st):
         v = self.eval(s.value, st)
         for tgt in s.targets:
-            self.assign(tgt, v, st)
+            self.assign(tgt, v, st, rebind=True)
+        # x = <access path>  of a mutable container: x is a view into it (reference semantics)
+        if len(s.targets) == 1 and isinstance(s.targets[0], ast.Name) and is_mutable_val(v) \
+                and s.targets[0].id not in self.cur.con.locals:
+            ap = self.path_of_expr(s.value, st)
+            if ap is not None and ap.steps:
+                st.alias[s.targets[0].id] = ap
         return [('next', st, None)]
+
+    def path_of_expr(self, e, st):
+        """AliasPath for Name / a.b / a[i] chains rooted at a local variable, else None."""
+        steps = []
+        cur = e
+        while isinstance(cur, (ast.Attribute, ast.Subscript)):
+            if isinstance(cur, ast.Attribute):
+                steps.append(('attr', cur.attr))
+            else:
+                if isinstance(cur.slice, ast.Slice):
+                    return None
+                mark = len(self.vcs)
+                k = self.eval(cur.slice, st)
+                del self.vcs[mark:]
+                steps.append(('item', k))
+            cur = cur.value
+        if not isinstance(cur, ast.Name) or cur.id not in st.env:
+            return None
+        steps.reverse()
+        if cur.id in st.alias:
+            base = st.alias[cur.id]
+            return AliasPath(base.root, base.steps + steps)
+        return AliasPath(cur.id, steps)
+
+    def read_path(self, ap, st, node=None):
+        v = st.env[ap.root]
+        for kind, k in ap.steps:
+            if kind == 'attr':
+                v = v.fields[k]
+            else:
+                v = self.getitem(v, k, st, node, safe=False)
+        return v
+
+    def write_path(self, ap, newv, st, node=None):
+        def rec(v, steps):
+            if not steps:
+                return newv
+            kind, k = steps[0]
+            if kind == 'attr':
+                return v.with_field(k, rec(v.fields[k], steps[1:]))
+            inner = self.getitem(v, k, st, node, safe=False)
+            return self.setitem(v, k, rec(inner, steps[1:]), st, node) if node is not None else \
+                self._setitem_nosafe(v, k, rec(inner, steps[1:]), st)
+        st.env[ap.root] = rec(st.env[ap.root], ap.steps)
+
+    def _setitem_nosafe(self, c, k, v, st):
+        mark = len(self.vcs)
+        n0 = self.cur.safe_n
+        r = self.setitem(c, k, v, st, None)
+        del self.vcs[mark:]
+        self.cur.safe_n = n0
+        return r
 
     def st_AugAssign(self, s, st):
         cur = self.eval(s.target, st)
         rhs = self.eval(s.value, st)
         v = self.binop(s.op, cur, rhs, st, s)
-        self.assign(s.target, v, st)
+        self.assign(s.target, v, st, rebind=not is_mutable_val(cur))
         return [('next', st, None)]
 
     def st_Return(self, s, st):
@@ -830,6 +915,15 @@ class Engine:
                 raise Unsupported('range with step')
         if mode == 'seq':
             seq = self.eval(seq_expr, st)
+            if isinstance(seq, PObj) and seq.cls == 'builtins:file':
+                if not isinstance(seq_expr, ast.Name):
+                    raise Unsupported('iteration over a file that is not held in a local variable')
+                if spec is None:
+                    raise Unsupported('%s: loop at line %d has no invariant in the sidecar' % (fc.qualname, s.lineno))
+                lines = seq.fields['lines']
+                return self._loop_cut(s, st, spec, kind='for', seq=lines, lo=seq.fields['pos'].term,
+                                      hi=lines.shape.len(lines.term), idx_target=None, val_target=s.target, mode='seq',
+                                      seq_path=None, file_var=seq_expr.id)
             if isinstance(seq, PList) or (spec is not None and spec.unroll):
                 return self._for_unrolled(s, st, seq, idx_target, val_target)
             lo = z3.IntVal(0)
@@ -839,8 +933,9 @@ class Engine:
             lo, hi = rng
         if spec is None:
             raise Unsupported('%s: loop at line %d has no invariant in the sidecar' % (fc.qualname, s.lineno))
+        seq_path = self.path_of_expr(seq_expr, st) if mode == 'seq' else None
         return self._loop_cut(s, st, spec, kind='for', seq=seq, lo=lo, hi=hi, idx_target=idx_target,
-                              val_target=val_target, mode=mode)
+                              val_target=val_target, mode=mode, seq_path=seq_path)
 
     def _for_unrolled(self, s, st, seq, idx_target, val_target):
         if not isinstance(seq, PList):
@@ -850,9 +945,9 @@ class Engine:
         for i, item in enumerate(seq.items):
             nxt = []
             for cur in live:
-                self.assign(val_target, item, cur)
+                self.assign(val_target, item, cur, rebind=True)
                 if idx_target is not None:
-                    self.assign(idx_target, zint(i), cur)
+                    self.assign(idx_target, zint(i), cur, rebind=True)
                 for kind, s2, payload in self.exec_block(s.body, cur):
                     if kind in ('next', 'continue'):
                         nxt.append(s2)
@@ -1002,11 +1097,18 @@ class Engine:
             st.assume(b)
         return obj.with_field(f, nv)
 
-    def _loop_cut(self, s, st, spec, kind, seq=None, lo=None, hi=None, idx_target=None, val_target=None, mode=None):
+    def _loop_cut(self, s, st, spec, kind, seq=None, lo=None, hi=None, idx_target=None, val_target=None, mode=None,
+                  seq_path=None, file_var=None):
         fc = self.cur
         lid = fc.loop_id(s)
         pre_env = dict(st.env)
         writes = self._written(s.body, st)
+        # a write through a view is a write to the container it views
+        writes = {((st.alias[p[0]].root,) if p[0] in st.alias else p) for p in writes}
+        if seq_path is not None and isinstance(val_target, ast.Name) and any(p[0] == val_target.id for p in writes):
+            writes.add((seq_path.root,))
+        if file_var is not None:
+            writes.add((file_var, 'pos'))
         for w in spec.extra_writes:
             writes.add((w,))
         gi = None
@@ -1014,6 +1116,7 @@ class Engine:
 
         def invs(state, i):
             L = LoopCtx(state.env, pre_env, fc.entry, i, seq, self)
+            L.alias = state.alias
             return spec.inv(L)
 
         # 1. invariant holds on entry
@@ -1032,23 +1135,33 @@ class Engine:
         for nm, b in invs(head, gi):
             head.assume(b)
         if spec.hints is not None:
-            for h in spec.hints(LoopCtx(head.env, pre_env, fc.entry, gi, seq, self)):
+            Lh = LoopCtx(head.env, pre_env, fc.entry, gi, seq, self)
+            Lh.alias = head.alias
+            for h in spec.hints(Lh):
                 head.assume(h)
         # 3a. exit arm
         ex = head.fork()
         if kind == 'for':
             ex.assume(gi >= hi)
+            if file_var is not None:
+                ex.env[file_var] = ex.env[file_var].with_field('pos', ZV(TInt, hi))
             if self.feasible(ex):
                 outs.append(('next', ex, None))
             body_st = head
             body_st.assume(gi < hi)
+            if file_var is not None:
+                # the line is consumed before the body runs (a seek() in the body then wins)
+                body_st.env[file_var] = body_st.env[file_var].with_field('pos', ZV(TInt, gi + 1))
             if mode == 'seq':
                 item = self.getitem(seq, ZV(TInt, gi), body_st, s, safe=False)
-                self.assign(val_target, item, body_st)
+                self.assign(val_target, item, body_st, rebind=True)
                 if idx_target is not None:
-                    self.assign(idx_target, ZV(TInt, gi), body_st)
+                    self.assign(idx_target, ZV(TInt, gi), body_st, rebind=True)
+                # the loop variable is a view into the iterated list when its elements are mutable
+                if isinstance(val_target, ast.Name) and is_mutable_val(item) and seq_path is not None:
+                    body_st.alias[val_target.id] = AliasPath(seq_path.root, seq_path.steps + [('item', ZV(TInt, gi))])
             else:
-                self.assign(val_target, ZV(TInt, gi), body_st)
+                self.assign(val_target, ZV(TInt, gi), body_st, rebind=True)
             arms = [body_st] if self.feasible(body_st) else []
         else:
             arms = []
@@ -1072,9 +1185,17 @@ class Engine:
         return outs
 
     # ------------------------------------------------------------------ assignment
-    def assign(self, tgt, v, st):
+    def assign(self, tgt, v, st, rebind=False):
+        """rebind=True: the statement `name = value`; False: write-back of an updated container
+        (goes through the alias when the name is a view)."""
         fc = self.cur
         if isinstance(tgt, ast.Name):
+            if tgt.id in st.alias:
+                if rebind:
+                    del st.alias[tgt.id]
+                else:
+                    self.write_path(st.alias[tgt.id], v, st)
+                    return
             if tgt.id in fc.con.locals:
                 shp = fc.con.locals[tgt.id]
                 try:
@@ -1086,7 +1207,7 @@ class Engine:
         elif isinstance(tgt, (ast.Tuple, ast.List)):
             items = self.unpack(v, len(tgt.elts), st)
             for t, x in zip(tgt.elts, items):
-                self.assign(t, x, st)
+                self.assign(t, x, st, rebind)
         elif isinstance(tgt, ast.Attribute):
             obj = self.eval(tgt.value, st)
             if not isinstance(obj, PObj):
@@ -1156,6 +1277,8 @@ class Engine:
         return self.const(e.value)
 
     def ev_Name(self, e, st):
+        if e.id in st.alias and isinstance(e.ctx, ast.Load):
+            return self.read_path(st.alias[e.id], st, e)
         if e.id in st.env:
             v = st.env[e.id]
             if isinstance(v, Undefined):
@@ -1198,6 +1321,8 @@ class Engine:
             return PFun('method', (obj, e.attr, e.value))
         if isinstance(obj, PModule):
             return PFun('modattr', (obj.name, e.attr))
+        if isinstance(obj, PFun) and obj.kind == 'modattr':
+            return PFun('modattr', ('%s.%s' % obj.payload, e.attr))
         return PFun('valmethod', (obj, e.attr, e.value))
 
     def ev_Subscript(self, e, st):
@@ -1778,6 +1903,7 @@ class LoopCtx:
         self.i = i
         self.seq = seq
         self.eng = eng
+        self.alias = {}
 
     def __getattr__(self, k):
         env = self.__dict__.get('env', {})
